@@ -1,4 +1,4 @@
-import Babble.Model.Hashgraph
+import Babble.Model.Codec
 import Std.Data.HashMap
 /-! Line-protocol engine for the hashgraph model (`HG ...` operations). Core Lean only. -/
 open Babble Babble.HG
@@ -94,6 +94,20 @@ def hgStep (h : HGState) (toks : List String) : HGState × List String :=
           let s := resetFrom blk fr (fun id => h.evs.get? id)
           ({ h with nodes := h.nodes.insert n s, shown := h.shown.insert n 1 }, ["O reset ok"])
     | _, _, _ => (h, ["O bad-op"])
+  | ["wire", a, b, id] =>
+    match a.toNat?.bind (h.nodes.get? ·), b.toNat?.bind (h.nodes.get? ·) with
+    | some sa, some sb =>
+      match sa.get id with
+      | none => (h, ["O wire unknown-event"])
+      | some e =>
+        match sa.toWire e with
+        | none => (h, ["O wire no-wire-info"])
+        | some w =>
+          let back := match sb.readWireParents w with
+            | some (x, y) => s!"sp={undash x} op={undash y}"
+            | none => "unreadable"
+          (h, [s!"O wire {w.creator} {w.index} {w.spIndex} {if w.opIndex < 0 then 0 else w.opCreator} {w.opIndex} {back}"])
+    | _, _ => (h, ["O bad-op"])
   | ["dump", n, what] =>
     match n.toNat?.bind (h.nodes.get? ·) with
     | none => (h, ["O bad-op"])
